@@ -82,30 +82,25 @@ ExactFor(id, m, d, lv) ==
      ELSE \E k \in 1..Len(m.sigs) : d.s = FirstK(m.sigs, k)
 
 -----------------------------------------------------------------------------
-Init0 ==
-  /\ msgs = Empty /\ nextId = 1 /\ txs = Empty /\ processed = {}
-  /\ live = 0 /\ deploy = "none" /\ active = 1 /\ user = "none"
-  /\ res = "start" /\ routed = <<>> /\ applied = <<>>
+W0 == [msgs |-> Empty, nextId |-> 1, txs |-> Empty, processed |-> {}, live |-> 0, deploy |-> "none", active |-> 1, user |-> "none"]
 
 \* world 1: the new compass was uploaded (message 0) and attested; the hand-over message 1 is pending
 UscData == [c |-> <<"usc", 0, 0>>, s |-> {}, x |-> "none"]
-Init1 ==
-  /\ msgs = (1 :> [Msg("handover", 0, 1) EXCEPT !.sigs = <<>>]) /\ nextId = 2
-  /\ txs = (<<0, 1, "none">> :> UscData) /\ processed = {<<UscData, 1>>}
-  /\ live = 0 /\ deploy = "waiting" /\ active = 1 /\ user = "none"
-  /\ res = "start" /\ routed = <<>> /\ applied = <<>>
+W1 == [W0 EXCEPT !.msgs = (1 :> Msg("handover", 0, 1)), !.nextId = 2, !.txs = (<<0, 1, "none">> :> UscData),
+                 !.processed = {<<UscData, 1>>}, !.deploy = "waiting"]
 
 \* world 2: snapshot s2 went live (message 0) and was re-published once (message 1); both transactions used
 VsData(vs) == [c |-> <<"valset", 0, vs>>, s |-> {2}, x |-> "none"]
-Init2 ==
-  /\ msgs = Empty /\ nextId = 2
-  /\ txs = (<<0, 1, "none">> :> VsData(1)) @@ (<<1, 1, "none">> :> VsData(2))
-  /\ processed = {<<VsData(1), 1>>, <<VsData(2), 1>>}
-  /\ live = 2 /\ deploy = "none" /\ active = 1 /\ user = "none"
-  /\ res = "start" /\ routed = <<>> /\ applied = <<>>
+W2 == [W0 EXCEPT !.nextId = 2, !.txs = (<<0, 1, "none">> :> VsData(1)) @@ (<<1, 1, "none">> :> VsData(2)),
+                 !.processed = {<<VsData(1), 1>>, <<VsData(2), 1>>}, !.live = 2]
 
-InitW(w) == CASE w = 0 -> Init0 [] w = 1 -> Init1 [] OTHER -> Init2
-Init == Init0
+WRec(w) == CASE w = 0 -> W0 [] w = 1 -> W1 [] OTHER -> W2
+InitW(w) ==
+  LET s == WRec(w) IN
+  /\ msgs = s.msgs /\ nextId = s.nextId /\ txs = s.txs /\ processed = s.processed
+  /\ live = s.live /\ deploy = s.deploy /\ active = s.active /\ user = s.user
+  /\ res = "start" /\ routed = <<>> /\ applied = <<>>
+Init == InitW(0)
 
 -----------------------------------------------------------------------------
 (* Enqueue *)
